@@ -59,6 +59,24 @@ def run_shard(job):
     return res
 
 
+def run_lemma(spec, tier):
+    """Engine B obligation: `python -m <module> <tier>` prints @@LEMMA@@{json}"""
+    t0 = time.time()
+    try:
+        p = sh([PY, "-m", spec["module"], tier], timeout=spec.get("timeout", 1800))
+        res = None
+        for line in p.stdout.splitlines():
+            if line.startswith("@@LEMMA@@"):
+                res = json.loads(line[len("@@LEMMA@@"):])
+        if res is None:
+            res = {"verdict": "harness_error", "error": "lemma produced no result: " + (p.stderr or p.stdout)[-1500:]}
+    except subprocess.TimeoutExpired:
+        res = {"verdict": "inconclusive", "inconclusive": ["hard wall limit exceeded"]}
+    res["elapsed_s"] = round(time.time() - t0, 2)
+    res.setdefault("name", spec["module"])
+    return res
+
+
 def replay_file(path):
     p = sh([PY, "-m", "vlib.replay", path], timeout=600)
     return p.returncode, p.stdout.strip()
@@ -102,14 +120,18 @@ def main(argv=None):
             jobs.append({"cond": c, "sid": sid, "path": path, "sfix": sfix})
     random.Random(seed).shuffle(jobs)
     jobs.sort(key=lambda j: -j["cond"].timeout)   # long shards first
+    lemma_specs = hmod.lemmas(args.tier) if hasattr(hmod, "lemmas") and not args.only else []
     print("vcheck %s tier=%s repo=%s: %d conditions, %d shards, %d workers"
           % (pid, args.tier, repo_state(), len(conds), len(jobs), args.jobs), flush=True)
     results = {}
+    lemma_results = []
     with concurrent.futures.ThreadPoolExecutor(max_workers=args.jobs) as ex:
+        lfuts = [ex.submit(run_lemma, ls, args.tier) for ls in lemma_specs]
         futs = dict((ex.submit(run_shard, j), j) for j in jobs)
         for fut in concurrent.futures.as_completed(futs):
             j = futs[fut]
             results[j["sid"]] = (j, fut.result())
+        lemma_results = [f.result() for f in lfuts]
     known = load_known()
     violations, known_hits, harness_errors, inconclusive = [], [], [], []
     per_cond = {}
@@ -180,6 +202,33 @@ def main(argv=None):
         else:
             inconclusive.append("%s (%d paths explored, %s)" % (sid, r.get("paths", 0), r.get("error") or
                                                                "; ".join(m[1] for m in r.get("messages", []))[:200]))
+    # ---- Engine B lemmas
+    lemma_ob = lemma_dis = 0
+    for ls, lr in zip(lemma_specs, lemma_results):
+        lemma_ob += max(lr.get("obligations", 1), 1)
+        lemma_dis += lr.get("discharged", 0)
+        solver_cpu += lr.get("solver_s", 0.0)
+        tot_paths += lr.get("paths", 0)
+        tot_ok += lr.get("paths", 0)
+        v = lr.get("verdict")
+        if v == "counterexample":
+            rec = {"property": pid, "cond": lr["name"], "fn": ls["replay"], "kwargs": lr["cex"], "repo": repo_state(),
+                   "solver_witness": True}
+            h = hashlib.sha1(json.dumps(lr["cex"], sort_keys=True).encode()).hexdigest()[:10]
+            rpath = os.path.join(rdir, "%s-%s-%s.json" % (pid, lr["name"], h))
+            json.dump(rec, open(rpath, "w"), indent=1, sort_keys=True)
+            rc, out = replay_file(rpath)
+            if rc == 1:
+                violations.append((rpath, out))
+            else:
+                harness_errors.append("%s: solver witness %r does not reproduce against the real function" % (lr["name"], lr["cex"]))
+        elif v == "harness_error":
+            harness_errors.append("%s: %s" % (lr["name"], lr.get("error")))
+        elif v != "discharged":
+            for msg in lr.get("inconclusive", ["?"]):
+                inconclusive.append("%s: %s" % (lr["name"], msg))
+        for smp in lr.get("samples", [])[:2]:
+            samples.append({"lemma": lr["name"], "obligation": smp})
     # ---- regression witnesses of repaired findings and witnesses of open findings (plain replays)
     wit_run = 0
     for kind in ("fixed", "open"):
@@ -209,8 +258,8 @@ def main(argv=None):
     for rpath, out in violations:
         print(out)
         print("VIOLATION property=%s replay=%s" % (pid, os.path.relpath(rpath, ROOT)))
-    obligations = len(jobs)
-    discharged = sum(pc["confirmed"] for pc in per_cond.values())
+    obligations = len(jobs) + lemma_ob
+    discharged = sum(pc["confirmed"] for pc in per_cond.values()) + lemma_dis
     wall = round(time.time() - t_start, 2)
     print("vcheck %s: %d/%d obligations discharged, %d inconclusive, %d violations, %d harness errors, "
           "%d paths, %.0f s CPU in CrossHair/z3, %.0f s wall"
@@ -234,6 +283,7 @@ def main(argv=None):
                 "solver": "crosshair-tool 0.0.110 + z3 (path feasibility, exhaustion of the path tree)",
                 "solver_cpu_s": round(solver_cpu, 1),
                 "conditions": per_cond,
+                "lemmas": lemma_results,
                 "regression_witnesses_replayed": wit_run,
                 "inconclusive_list": inconclusive, "harness_errors": harness_errors,
                 "repo": repo_state(),
